@@ -114,6 +114,15 @@ pub fn run(ctx: &Ctx) -> usize {
       2 => (rng.range(2295000, 2299400), rng.range(0, 86399)), // 1571..1583: limits that end around October 1582
       _ => (rng.range(1721424 + 500, 5369000), rng.range(0, 86399)),
     };
+    if k % 6 == 0 {
+      // both sides of the same Jie back to back (after it, then before it): the governing Jie must not stick
+      for off in [60i64, -60, 2, -2] {
+        let (jj, ss) = if s + off >= 0 && s + off < 86400 { (j, s + off) } else { continue };
+        if let Some(t) = time_at(jj, ss) {
+          birth_lines(&mut sink, &t, k % 4 == 0);
+        }
+      }
+    }
     if let Some(t) = time_at(j, s) {
       birth_lines(&mut sink, &t, k % 2 == 0);
       if k % 3 == 0 {
